@@ -15,20 +15,26 @@ pub struct RtFail {
     pub text: Option<String>,
 }
 
-/// enc: 0 to_string, 1 to_vec, 2 to_value; dec: 0 from_str, 1 from_slice, 2 from_value
+/// enc: 0 to_string, 1 to_vec, 2 to_value, 3 to_writer (a sink taking a few bytes per write);
+/// dec: 0 from_str, 1 from_slice, 2 from_value, 3 from_reader (a source handing out a few bytes per read)
 pub fn json_roundtrip(m: &MVal, bits: u64, enc: u8, dec: u8) -> Result<String, RtFail> {
     let v = to_value_with(m, bits);
     let r = catch(|| -> Result<(String, Result<Value, String>), String> {
         match enc {
-            0 | 1 => {
+            0 | 1 | 3 => {
                 let text = if enc == 0 {
                     serde_json::to_string(&v).map_err(|e| e.to_string())?
-                } else {
+                } else if enc == 1 {
                     String::from_utf8(serde_json::to_vec(&v).map_err(|e| e.to_string())?).map_err(|e| e.to_string())?
+                } else {
+                    let mut w = crate::readers::ShortWriter::new(1 + (bits % 5) as usize);
+                    serde_json::to_writer(&mut w, &v).map_err(|e| e.to_string())?;
+                    String::from_utf8(w.out).map_err(|e| e.to_string())?
                 };
                 let back = match dec {
                     0 => serde_json::from_str::<Value>(&text).map_err(|e| e.to_string()),
                     1 => serde_json::from_slice::<Value>(text.as_bytes()).map_err(|e| e.to_string()),
+                    3 => serde_json::from_reader::<_, Value>(crate::readers::HostileReader::new(text.as_bytes(), crate::readers::Chunking::Random(text.len() as u64 ^ bits), true, None)).map_err(|e| e.to_string()),
                     _ => match serde_json::from_str::<serde_json::Value>(&text) {
                         Ok(j) => serde_json::from_value::<Value>(j).map_err(|e| e.to_string()),
                         Err(e) => Err(format!("encoder output is not JSON: {e}")),
@@ -42,6 +48,7 @@ pub fn json_roundtrip(m: &MVal, bits: u64, enc: u8, dec: u8) -> Result<String, R
                 let back = match dec {
                     0 => serde_json::from_str::<Value>(&text).map_err(|e| e.to_string()),
                     1 => serde_json::from_slice::<Value>(text.as_bytes()).map_err(|e| e.to_string()),
+                    3 => serde_json::from_reader::<_, Value>(crate::readers::HostileReader::new(text.as_bytes(), crate::readers::Chunking::Random(text.len() as u64 ^ bits), true, None)).map_err(|e| e.to_string()),
                     _ => serde_json::from_value::<Value>(j).map_err(|e| e.to_string()),
                 };
                 Ok((text, back))
@@ -109,7 +116,7 @@ pub fn report(ctx: &mut Ctx, m: &MVal, bits: u64, enc: u8, dec: u8, first: RtFai
         &sig,
         &format!("{} — {}", shape(&min), f.detail),
         json!({"value": truncate(&min.show(), 1500), "json": f.text.map(|t| truncate(&t, 1500)), "detail": f.detail,
-               "entry_points": format!("enc={} dec={}", ["to_string","to_vec","to_value"][enc as usize], ["from_str","from_slice","from_value"][dec as usize]),
+               "entry_points": format!("enc={} dec={}", ["to_string","to_vec","to_value","to_writer"][enc as usize], ["from_str","from_slice","from_value","from_reader"][dec as usize]),
                "original": truncate(&m.show(), 600)}),
     );
 }
@@ -130,9 +137,9 @@ pub fn run(ctx: &mut Ctx) {
         if ctx.wants_sample(m.kind_name()) {
             ctx.sample(m.kind_name(), json!(truncate(&m.show(), 300)));
         }
-        let enc = ((i / 15) % 3) as u8;
-        let dec = ((i / 45) % 3) as u8;
-        ctx.stratum(&format!("entry:{}x{}", ["to_string", "to_vec", "to_value"][enc as usize], ["from_str", "from_slice", "from_value"][dec as usize]));
+        let enc = ((i / 15) % 4) as u8;
+        let dec = ((i / 60) % 4) as u8;
+        ctx.stratum(&format!("entry:{}x{}", ["to_string", "to_vec", "to_value", "to_writer"][enc as usize], ["from_str", "from_slice", "from_value", "from_reader"][dec as usize]));
         if let Err(f) = json_roundtrip(&m, 0, enc, dec) {
             report(ctx, &m, 0, enc, dec, f);
             continue;
@@ -159,13 +166,13 @@ pub fn run(ctx: &mut Ctx) {
         let mut rng = ctx.case_rng("value", i);
         let m = gen_value(&mut rng, depth);
         let bits = rng.next_u64();
-        let enc = rng.below(3) as u8;
-        let dec = rng.below(3) as u8;
+        let enc = rng.below(4) as u8;
+        let dec = rng.below(4) as u8;
         for s in strata_of(&m) {
             ctx.stratum(s);
         }
         ctx.stratum(&format!("depth:{}", m.depth()));
-        ctx.stratum(&format!("entry:{}x{}", ["to_string", "to_vec", "to_value"][enc as usize], ["from_str", "from_slice", "from_value"][dec as usize]));
+        ctx.stratum(&format!("entry:{}x{}", ["to_string", "to_vec", "to_value", "to_writer"][enc as usize], ["from_str", "from_slice", "from_value", "from_reader"][dec as usize]));
         ctx.eval("value", m.fp(), m.size() > 1);
         if m.depth() >= 2 && ctx.wants_sample("nested") {
             ctx.sample("nested", json!(truncate(&m.show(), 400)));
@@ -198,7 +205,7 @@ pub fn run(ctx: &mut Ctx) {
         let mut rng = ctx.case_rng("wide", i);
         let m = crate::gen::gen_wide(&mut rng);
         ctx.eval("wide", m.fp(), true);
-        let (enc, dec) = ((i % 3) as u8, ((i / 3) % 3) as u8);
+        let (enc, dec) = ((i % 4) as u8, ((i / 4) % 4) as u8);
         if let Err(f) = json_roundtrip(&m, 0, enc, dec) {
             report(ctx, &m, 0, enc, dec, f);
         }
